@@ -149,11 +149,21 @@ def oracle(c):
         yield (key, "cycle of group %d: %s" % (gi, pr["bad"][0][:300]))
 
 
+def coq_sms(d):
+    return "[" + "; ".join("mkSm %d %d %s %d" % (u, st, "true" if en else "false", ctl) for u, st, en, ctl in d["sms"]) + "]"
+
+
+def coq_mbx(d):
+    m = d.get("mbx")
+    return "None" if not m else "(Some (mkM %d %d %d %d %d))" % tuple(m)
+
+
 def coq_dev(d):
     def pd(l):
         return "[" + "; ".join("mkPdo %d %d [%s]" % (i, sm, "; ".join(str(b) for b in bits)) for i, sm, bits in l) + "]"
-    sms = "[" + "; ".join("mkSm %d %d %s %d" % (u, st, "true" if en else "false", ctl) for u, st, en, ctl in d["sms"]) + "]"
-    return "mkDev %s %s [%s] %s %s [%s]" % ("true" if d["coe"] else "false", sms, "; ".join(str(u) for u in d["fmmu_usage"]), pd(d["rx"]), pd(d["tx"]),
+    sms = coq_sms(d)
+    # whether the device counts as a CoE device is the MODEL's decision from the mailbox settings
+    return "mkDev (has_coe %s %s) %s [%s] %s %s [%s]" % (coq_mbx(d), sms, sms, "; ".join(str(u) for u in d["fmmu_usage"]), pd(d["rx"]), pd(d["tx"]),
                                             "; ".join("(%d, %d)" % (a, b) for a, b in d["over"]))
 
 
@@ -243,6 +253,25 @@ def run(ctx, replay=None):
                 continue        # the oracle has reported it; nothing to compare the model with
             items.append(("obs_group %s %d %d [%s]" % ("Release" if c["release"] else "Debug", starts.get(gi, 0), c["max_pdi"][gi], "; ".join(coq_dev(d) for d in devs)), e))
             meta.append((ci, gi))
+    # the mailbox sync managers programmed during INIT -> PRE-OP and the CoE decision (Pd/Mailbox.v)
+    nmb = 0
+    for ci, c in enumerate(cases):
+        if c["res"] != "Ok":
+            continue
+        for p, d in enumerate(c["devs"]):
+            if "mbx" not in d:
+                continue
+            e = [1 if d["coe"] else 0]
+            m = d["mbx"]
+            has_mbx = bool(m) and ((m[4] != 0 and m[1] > 0) or m[3] > 0)
+            for k, (u, st, en, ctl) in enumerate(d["sms"]):
+                if u in (1, 2) and has_mbx:
+                    r = d["sm_regs"][k]
+                    e += [k, r[0], r[1], r[2], r[3]]
+            items.append(("obs_mbx %s %s" % (coq_mbx(d), coq_sms(d)), e))
+            meta.append((ci, "mailbox of device %d" % p))
+            nmb += 1
+    stats["mailbox_configs_compared"] = nmb
     # one probing cycle per group against the model's ring of devices (Net/Commute.v); groups next to
     # a group whose configuration failed are left to the oracle (the leftover FMMUs are foreign devices)
     ncyc = 0
@@ -271,7 +300,7 @@ def run(ctx, replay=None):
     texts = []
     for i in range(nsh):
         its = items[i::nsh]
-        texts.append("\n".join(["From EC Require Import Base.Prelude Base.Bytes Pd.Layout Net.Commute Wire.Check.", "Local Open Scope N_scope.",
+        texts.append("\n".join(["From EC Require Import Base.Prelude Base.Bytes Pd.Layout Pd.Mailbox Net.Commute Wire.Check.", "Local Open Scope N_scope.",
                                 "Definition cs : list (list Z * list Z) := [" + ";\n".join("(%s, %s%%Z)" % (t, vlib.gz(e)) for t, e in its) + "].",
                                 "Eval vm_compute in (0, map fst (mismatches (fun x => x) cs 0))."]) + "\n")
     dis = 0
